@@ -30,6 +30,10 @@ var scenarioFollow = map[string][]string{
 	"config-long-then-short-same-pid": {"config", "user.name", "N"},
 	"rm-after-add-many-same-pid":      {"rm", "dir", "a.txt", "dir.c"},
 	"branch-hash-then-reset-same-pid": {"reset", "--soft", "HEAD@{1}"},
+	// "@HEAD@" stands for the commit HEAD resolved to before the interrupted command
+	"branch-create-then-update-same-pid": {"update-ref", "refs/heads/feat", "@HEAD@"},
+	"switch-create-then-update-same-pid": {"update-ref", "refs/heads/feat", "@HEAD@"},
+	"first-commit-then-update-same-pid":  {"update-ref", "refs/heads/main", "@NEW@"},
 }
 
 func commitBase(k *Walker) {
@@ -209,6 +213,9 @@ func scenarioCorpus() []scenario {
 			}
 		}, fixed("add", "more")},
 		{"branch-hash-then-reset-same-pid", func(k *Walker) { k.Init(); twoCommits(k) }, fixed("reset", "--soft", "HEAD@{1}")},
+		{"branch-create-then-update-same-pid", func(k *Walker) { k.Init(); twoCommits(k) }, fixed("branch", "feat")},
+		{"switch-create-then-update-same-pid", func(k *Walker) { k.Init(); twoCommits(k) }, fixed("switch", "-c", "feat")},
+		{"first-commit-then-update-same-pid", func(k *Walker) { k.Init(); k.W.Write("a.txt", []byte("a\n")); k.W.Goit("add", "a.txt") }, fixed("commit", "-m", "first")},
 		{"config-global-shrinks", func(k *Walker) {
 			k.Init()
 			k.W.Goit("config", "--global", "user.name", "Alice Margaret Wonderland-Liddell")
@@ -543,7 +550,7 @@ func runFaults(c *core.Ctx, w *core.World, name string, argv []string, randomHis
 			}
 			// (5) process ids are reused: what a later command does must not depend on whether its process carries the id of
 			// the one that was killed (whose temporary files may still lie around) or a fresh one
-			if follow := scenarioFollow[name]; follow != nil && !randomHist {
+			if follow := resolveFollow(scenarioFollow[name], preR.HeadCommit(), postR.HeadCommit()); follow != nil && !randomHist {
 				c.Oracle("C15.followup-pid-independent")
 				runF := func(pid string) *sandbox.Result {
 					return w.SB.Run(c.GoitVFS, follow, sandbox.RunOpts{ExtraEnv: map[string]string{"VERIF_NOW": now, "VERIF_PID": pid}})
@@ -562,6 +569,35 @@ func runFaults(c *core.Ctx, w *core.World, name string, argv []string, randomHis
 				for _, p := range got.Repo().Fsck(false) {
 					if fr.Exit == 0 {
 						fail(fc, "C15.followup-pid-independent", "followup-"+p.Oracle, trig, "%s: afterwards `goit %s` (same process id) exits 0 and leaves: %s", where, strings.Join(follow, " "), p.Msg)
+					}
+				}
+				// (5b) the later process may be killed too, at every one of ITS modifications, carrying the id of the first
+				// victim: branches and HEAD hold what they held or what the complete follow-up gives, and reading still works
+				skR, gotR := sk.Repo(), got.Repo()
+				for k2 := 1; k2 <= 40 && fr.Exit == 0; k2++ {
+					w.SB.Restore(sk)
+					r2 := w.SB.Run(c.GoitVFS, follow, sandbox.RunOpts{ExtraEnv: map[string]string{"VERIF_NOW": now, "VERIF_PID": "4242", "VERIF_FAULT": fmt.Sprintf("c:%d", k2)}})
+					c.Eval(1)
+					if r2.Signal != "killed" {
+						break
+					}
+					c.Oracle("C15.second-kill-same-pid")
+					c.Class(fmt.Sprintf("C15.second-kill|%s|k%d", name, min(k2, 6)))
+					k2r := w.SB.Snapshot().Repo()
+					where2 := fmt.Sprintf("%s; then `goit %s` by a process with the same id, killed before its modification %d", where, strings.Join(follow, " "), k2)
+					for b := range unionKeys(skR.Branches, gotR.Branches, k2r.Branches) {
+						if v := k2r.Branches[b]; v != skR.Branches[b] && v != gotR.Branches[b] {
+							fail(fc, "C15.second-kill-same-pid", "branch-neither-old-nor-new", trig, "%s: branch %q holds %q; before: %q, after the complete follow-up: %q", where2, b, v, skR.Branches[b], gotR.Branches[b])
+						}
+					}
+					if k2r.HeadRaw != skR.HeadRaw && k2r.HeadRaw != gotR.HeadRaw {
+						fail(fc, "C15.second-kill-same-pid", "head-neither-old-nor-new", trig, "%s: HEAD holds %q", where2, k2r.HeadRaw)
+					}
+					for _, r := range ros {
+						if res := w.SB.Run(c.Goit, r.argv, sandbox.RunOpts{}); r.ok && res.Exit != 0 {
+							fail(fc, "C15.second-kill-same-pid", "readonly-fails", trig+"|"+r.argv[0], "%s: afterwards `goit %s` exits %d: %s", where2, strings.Join(r.argv, " "), res.Exit, clipS(firstLine(string(res.Stdout)+string(res.Stderr)), 160))
+						}
+						c.Eval(1)
 					}
 				}
 				w.SB.Restore(sk)
@@ -908,4 +944,33 @@ func init() {
 		Floors: []core.Floor{{Key: "C16.fault-runs", Min: 1000}, {Key: "C16.scenarios", Min: 30}},
 		Assume: []string{"single-fault sequences only; stat and close are outside the fault domain"},
 	})
+}
+
+// resolveFollow fills the placeholders of a follow-up command: "@HEAD@" = the commit HEAD named before the
+// interrupted command, "@NEW@" = the one it names after the complete command.
+func resolveFollow(f []string, headBefore, headAfter string) []string {
+	if f == nil {
+		return nil
+	}
+	out := make([]string, len(f))
+	for i, a := range f {
+		switch a {
+		case "@HEAD@":
+			a = headBefore
+		case "@NEW@":
+			a = headAfter
+		}
+		out[i] = a
+	}
+	return out
+}
+
+func unionKeys(ms ...map[string]string) map[string]bool {
+	u := map[string]bool{}
+	for _, m := range ms {
+		for k := range m {
+			u[k] = true
+		}
+	}
+	return u
 }
